@@ -26,6 +26,7 @@ STD_AXIOMS = ()   # the development is axiom-free; anything reported is an error
 TRUSTED_BASE = [
     "Coq 8.16.1 kernel (coqc, full .vo builds; vm_compute used for finite sweeps; no native_compute)",
     "tools/extract.py: translator regenerating coq/gen/*.v from /repo/src on every run (fail-closed ast reader; skeleton hashes in tools/blessed.json)",
+    "tools/pylite.py: translator regenerating the abstract syntax of the protocol / record modules (coq/gen/Src_*.v) on every run; coq/py/PyLite.v: modelled semantics of the Python subset, validated by the extracted interpreter against CPython (Run.pylite)",
     "extraction: Require Extraction + ExtrOcamlBasic only (bool, option, list, prod, unit, sumbool -> OCaml); no Extract Constant / Extract Inductive of our own; OCaml 4.13.1 + zarith in coq/extract/driver.ml (correspondence only)",
     "correspondence harness tools/harness + tools/checks (case generators, independent reference codec/device)",
     "modelled, not verified: CPython struct / bytes slicing / int->float, crcmod (C extension), queue/threading primitives",
